@@ -85,6 +85,7 @@ OPTIONS_AFFECTING_CACHE: Final = (
         # pre-rendered) error lines of a module look.
         "allow_empty_bodies",
         "deprecated_calls_exclude",
+        "hide_error_codes",
         "many_errors_threshold",
         "report_deprecated_as_note",
         "show_absolute_path",
